@@ -264,11 +264,11 @@ PROPS["C03"] = {
     "facts": ["truncateComparesWithFollowerTermEntry", "cursorStartsAtTruncatedHead", "followerTruncateOnlyWhenFenced", "followerAppendChecksTermAlways",
               "lateRequestCannotConvertLeader", "snapshotChunkTermMustEqual", "walReaderServesOnlySyncedEntries", "walSyncCallbacksOnlyForFlushedEntries"],
     "trusted_base": REPLTRUST,
-    "assumptions": ["C03_attach_compatible assumes the log-matching property in the form 'every log is cut from one log per term' (Conforms) and the follower's true head (C04); that this is an invariant of all runs is not proved (it is what the differential runs and the oracle check), and known finding D-40 is a history in which two leaders hold different committed entries",
+    "assumptions": ["C03_attach_compatible_partial assumes that the entry getHighestEntryOfTerm finds is of the follower's head term or does not exist (the remaining case is refuted: known finding D-44), and the log-matching property in the form 'every log is cut from one log per term' (Conforms) and the follower's true head (C04); that this is an invariant of all runs is not proved (it is what the differential runs and the oracle check), and known finding D-40 is a history in which two leaders hold different committed entries",
                     "acknowledgement after WAL sync is tied by the facts about the reader bound and runSync, durability itself is the WAL's (C09/C10)"],
     "rule": PRULE + " Oracle: every follower that acknowledged offset o to the leader of its term holds the leader's entry at every offset up to o; two nodes that lead hold the same entries up to the smaller commit offset; the commit offset is within the log.",
-    "level_text": "Machine-checked proof (Lean 4) on M-Repl: for every leader log, starting offset and number of (re-)deliveries, the follower's append loop started on a log compatible with the leader's keeps it compatible, only extends it, never moves the acknowledged offset back and leaves everything at or below it equal to the leader's entries (C03_stream_keeps_acked_prefix_equal, induction over the deliveries; duplicates are acknowledged without a look at the entry, which is why compatibility is needed: proved counterexample); a follower of another term takes nothing; the attach decision of truncateFollowerIfNeeded as found in the tree yields a compatible log and a cursor position up to which the logs are equal, in all its cases (same term, older term below / beyond the leader's last entry of that term, no entry of that term), from the log-matching property (C03_attach_compatible); proved counterexample for the seeded comparison. Tied to the code by eight facts and by differential runs.",
-    "level_note": "Trusted: Lean kernel; extractor rules; protocol harness. Assumed: log matching as an invariant (checked by the oracle on every settled state, not proved). Known finding D-40b (committed offset holds different entries on two successive leaders).",
+    "level_text": "Machine-checked proof (Lean 4) on M-Repl: for every leader log, starting offset and number of (re-)deliveries, the follower's append loop started on a log compatible with the leader's keeps it compatible, only extends it, never moves the acknowledged offset back and leaves everything at or below it equal to the leader's entries (C03_stream_keeps_acked_prefix_equal, induction over the deliveries; duplicates are acknowledged without a look at the entry, which is why compatibility is needed: proved counterexample); a follower of another term takes nothing; PARTIAL for the attach step: the decision of truncateFollowerIfNeeded as found in the tree yields a compatible log and a cursor position up to which the logs are equal when the leader's last entry at or below the follower's head term is of that very term, or there is none (same term, older term below / beyond the leader's last entry of that term), from the log-matching property (C03_attach_compatible_partial); in the remaining case (the leader holds no entry of the follower's head term but entries of lower terms further up) the statement is false of model and code: kernel-checked witnesses C03_truncation_keeps_foreign_entries and C03_follower_diverges_below_acknowledged_offset, replayed on the implementation (known finding D-44); proved counterexample for the seeded comparison. Tied to the code by eight facts and by differential runs.",
+    "level_note": "Trusted: Lean kernel; extractor rules; protocol harness. Assumed: log matching as an invariant (checked by the oracle on every settled state, not proved). Known findings D-40b (committed offset holds different entries on two successive leaders) and D-44 (truncation by the offset of a lower-term entry leaves foreign entries below an acknowledged offset).",
     "technique": "Lean 4 proof (stream induction, case analysis of the attach decision) + regenerated facts + differential correspondence on real controllers",
     "design_ref": "DESIGN.md section 6 C03",
 }
